@@ -1,0 +1,14 @@
+// Copyright The gittuf Authors
+// SPDX-License-Identifier: Apache-2.0
+
+//go:build !verif
+
+package gitinterface
+
+// verifExecHook is a no-op in regular builds. With the `verif` build tag it
+// lets a deterministic-simulation harness observe, reorder and fail git
+// subprocess invocations.
+func verifExecHook(*executor) error { return nil }
+
+// verifExecDoneHook is a no-op in regular builds.
+func verifExecDoneHook(_ *executor, _ []string, err error) error { return err }
